@@ -6,8 +6,25 @@
    NOT modelled: clap's tokenizer (only the plain `-o value` token form, [parse_tokens], as a
    convenience for the tie), the logger (stdout lines starting with `![` when logging is not off),
    file reading (the framework returned by the reader is an input: C13), help/authors/check paths.
-   Bytes are [list N].  Definitions only. *)
+   Bytes are [list N].  Definitions only.
+
+   BYTES AND LABELS.  Everything that comes from the command line ([o_problem], [o_arg], the argv
+   tokens) is the BYTE string of the OS argument, as the harness passes it (UTF-8 for text).  clap
+   hands these to the command as `&str` (`value_of`), i.e. it UTF-8 decodes them and panics
+   (status 101) on invalid UTF-8.  Labels of an Aspartix framework are Rust `String`s: the model
+   keeps them, as the reader does (Model/Readers.v), as lists of Unicode code points ([str]).  So:
+   - [apx_instance]: `Display` of a label is its UTF-8 encoding ([Writers.utf8_encode]); the `-a`
+     operand is UTF-8 decoded ([Readers.utf8_decode]) and looked up by code points (String
+     comparison); an operand that is not UTF-8 names no argument (Rust: panic in `value_of`;
+     either way a non-zero exit without output);
+   - [iccma_instance]: labels are numbers, printed in ASCII decimal; `usize::from_str` accepts only
+     an optional `+` and ASCII digits, which are the same as bytes and as code points, and any
+     byte >= 128 makes it fail, as any non-ASCII code point does: reading the bytes directly is exact;
+   - problem strings and option values are compared with ASCII words only: a non-ASCII byte never
+     matches, as a non-ASCII code point never does. *)
 From Coq Require Import String Ascii NArith.
+(* imported first, not exported: the names of Model.Solvers and of this file take precedence *)
+From Crusta Require Import Model.Writers.
 From Crusta Require Export Model.Solvers.
 Open Scope prog_scope.
 
@@ -198,11 +215,15 @@ Definition iccma_instance (f : fw nat) : instance :=
                    then Some (N.to_nat v - 1) else None
        | None => None
        end |}.
-(* AspartixReader: labels are the identifiers of the file *)
-Definition apx_instance (f : fw bytes) : instance :=
+(* AspartixReader: labels are the identifiers of the file (Strings = code points): printed in
+   UTF-8; the operand of -a is UTF-8 decoded, then looked up *)
+Definition apx_instance (f : fw str) : instance :=
   {| i_g := view_of_fw f;
-     i_label := fun id => match label_of f id with Some l => l | None => [] end;
-     i_arg := fun a => get_argument bytes beqb f a |}.
+     i_label := fun id => match label_of f id with Some l => utf8_encode l | None => [] end;
+     i_arg := fun a => match utf8_decode a with
+                       | Some s => get_argument str str_eqb f s
+                       | None => None
+                       end |}.
 
 (* specs::write_acceptance_status / write_no_extension *)
 Definition status_line (b : bool) : bytes := (if b then bs "YES" else bs "NO") ++ [nl].
